@@ -10,6 +10,8 @@ import GcmpyModel.Driver.C15
 import GcmpyModel.Driver.C16
 import GcmpyModel.Driver.C17
 import GcmpyModel.Driver.Covers
+import GcmpyModel.Driver.C11
+import GcmpyModel.Driver.C19
 /-! Line protocol: one JSON request per line on stdin, one JSON reply per line on stdout.
     The driver only *executes* the model's definitions; it is outside the proofs. -/
 open Lean Gcmpy.Driver
@@ -32,6 +34,8 @@ def dispatch (j : Json) : R Json := do
   | "c17" => C17.handle j
   | "c09" => Covers.c09 j
   | "c10" => Covers.c10 j
+  | "c11" => C11.handle j
+  | "c19" => C19.handle j
   | "ping" => pure (obj [("pong", Json.bool true)])
   | _ => throw s!"unknown op {op}"
 
